@@ -1260,7 +1260,7 @@ mod tests {
         let base = unhex(SAMPLE_V3);
         let c = snap_compress(&base);
         check_compressed(&mut m, &c, "built", false);
-        for _ in 0..crate::util::miri_cases(120) {
+        for _ in 0..crate::util::miri_cases(60) {
             random_case(&mut m, &mut rng, false);
         }
         // known findings of the native monitor are not Miri findings: only UB matters here
